@@ -59,6 +59,14 @@ def imaging(
     if voxel_shape == "point":
         voxel = 1.0
     elif voxel_shape == "box":
+        if np.ndim(voxel_size) > 0:
+            # per-axis sizes: one per wavenumber column in use (sinc(0) = 1 for the others)
+            voxel_size = xp.asarray(voxel_size, dtype=float)
+            ncol = k.shape[-1]
+            if voxel_size.shape[-1] < ncol:
+                pad = [(0, 0)] * (voxel_size.ndim - 1) + [(0, ncol - voxel_size.shape[-1])]
+                voxel_size = np.pad(voxel_size, pad)
+            voxel_size = voxel_size[..., :ncol]
         voxel = xp.sinc(k * voxel_size / 2 / np.pi).prod(-1)
         kmask = xp.any(xp.abs(voxel) > tol, axis=tuple(range(F.ndim - 1)))
         F, k, voxel = F[..., kmask], k[..., kmask, :], voxel[..., kmask]
